@@ -98,7 +98,8 @@ class Interp:
     def is_hinted(self, n):
         """Does the call node designate a hinted insertion entry point of FlatSet (first parameter named `hint`)?"""
         tgt = self.prog.fns.get(n.get('fn')) if self.prog is not None and n.get('fn') is not None else None
-        return bool(tgt) and tgt['name'].startswith(FS + '::') and (tgt.get('pparams') or [''])[0] == 'hint'
+        from .sets import is_hinted_fn
+        return bool(tgt) and is_hinted_fn(tgt)
 
     def deref(self, pos, cx):
         """What *pos designates.  After an in-place insertion at offset p (cx.ins) positions are those of the grown sequence:
@@ -491,9 +492,8 @@ def hint_ord(progs):
     scs = scenarios()
     for prog in progs:
         for f in prog.amc_functions():
-            if f.get('body') is None or not f['name'].startswith(FS + '::') or (f.get('pparams') or [''])[0] != 'hint':
-                continue
-            if short(f['name']) not in ('insert_hint', 'insert', 'emplace_hint'):
+            from .sets import is_hinted_fn
+            if f.get('body') is None or not is_hinted_fn(f):
                 continue
             fname = short(f['name'])
             if len(f.get('params', [])) > 1 and ('node_type' in f['params'][1]['t'] or 'NodeType' in f['params'][1]['t'] or 'node' in (f.get('pparams') or ['', ''])[1:2]
